@@ -949,3 +949,33 @@ Proof.
   intros attr r z M H Hz. unfold sizes in H. cbn [fst] in H. apply in_map_iff in H.
   destruct H as (m & <- & Hin). exists m. split; assumption.
 Qed.
+
+(* ---------------------------------------------------------------------- the attribute block *)
+
+Lemma include_defaults_when_announcing {A NH F} (simple : F -> bool) (v4a : list A)
+      (fams : list (F * list (NH * A) * list A)) :
+  v4a <> [] \/ requested_mp fams <> [] -> include_defaults simple v4a fams = true.
+Proof.
+  intros H. unfold include_defaults.
+  destruct (negb (is_nil (filter fam_withdraws fams))); [|reflexivity]. cbn [andb].
+  assert (Hf : is_nil v4a && negb (existsb fam_announces fams) = false).
+  { destruct H as [H|H].
+    - destruct v4a; [exfalso; apply H; reflexivity|reflexivity].
+    - destruct (is_nil v4a); [|reflexivity]. cbn [andb].
+      assert (He : existsb fam_announces fams = true); [|rewrite He; reflexivity].
+      induction fams as [|[[f routed] wds] r IH]; [exfalso; apply H; reflexivity|].
+      cbn [existsb fam_announces]. destruct routed as [|x routed]; [|reflexivity].
+      cbn [is_nil negb orb]. apply IH. exact H. }
+  rewrite Hf. reflexivity.
+Qed.
+
+Definition split_bytes_top (simple : Z -> bool) (M : Z) (attr_full attr_min : list Z) :=
+  @messages_top (list Z) (list Z) Z zlen zlen bytes_eqb true simple M (zlen attr_full) (zlen attr_min).
+
+Lemma bytes_top_is_split : forall simple M af am v4a v4w fams,
+  fst (split_bytes_top simple M af am v4a v4w fams) =
+  split_bytes M (if snd (split_bytes_top simple M af am v4a v4w fams) then af else am) v4a v4w fams.
+Proof.
+  intros. unfold split_bytes_top, messages_top, split_bytes, split. cbn [fst snd].
+  destruct (include_defaults simple v4a fams); reflexivity.
+Qed.
